@@ -1,5 +1,9 @@
 import Driver.C01
 import Driver.C09
+import Driver.C14
+import Driver.C15
+import Driver.C13
+import Driver.C07
 import Driver.C16
 import Driver.C17
 /-! Line-protocol driver: one op per line on stdin (`<Cxx> <op> <args…>`), one answer per line. -/
@@ -9,6 +13,10 @@ def dispatch (line : String) : String :=
   match tokens line with
   | "C01" :: rest => Driver.C01.handle rest
   | "C09" :: rest => Driver.C09.handle rest
+  | "C14" :: rest => Driver.C14.handle rest
+  | "C15" :: rest => Driver.C15.handle rest
+  | "C13" :: rest => Driver.C13.handle rest
+  | "C07" :: rest => Driver.C07.handle rest
   | "C16" :: rest => Driver.C16.handle rest
   | "C17" :: rest => Driver.C17.handle rest
   | _ => "bad-op"
